@@ -255,7 +255,16 @@ func randMetaball2(rng *rand.Rand) mbOperand2 {
 	d, kind := orient2(rng)
 	d = d.Scale(size * (0.5 + rng.Float64()*2) / d.Norm())
 	var base mbOperand2
-	switch rng.Intn(6) {
+	switch rng.Intn(7) {
+	case 6:
+		// the library's 2D triangle as a metaball (clockwise or not: the field is -SDF either way)
+		p2 := c.Add(d)
+		p3 := c.Add(model2d.XY(-d.Y, d.X).Scale(0.3 + rng.Float64()))
+		if rng.Intn(2) == 0 {
+			p2, p3 = p3, p2
+		}
+		m := model2d.NewTriangle(c, p2, p3)
+		base = mbOperand2{m, m.MetaballField, []C2{c.Add(p2).Add(p3).Scale(1.0 / 3)}, fmt.Sprintf("Triangle{%s %s %s}", f2(c), f2(p2), f2(p3))}
 	case 0:
 		b := &hDisc{c, size}
 		base = mbOperand2{b, b.MetaballField, []C2{c}, fmt.Sprintf("hDisc{C:%s R:%x}", f2(c), size)}
